@@ -299,6 +299,11 @@ class LinearPolynomial(BaseDeferred):
                 key = key.wait()
                 computed = True
             if not computed:
+                # While speculating, give up at the first variable that is not
+                # known yet: trying the remaining ones as well made the time
+                # exponential in the number of statements whose size depends on
+                # their address ('.even', '.align') before the link base is known.
+                not_ready()
                 some_not_ready = True
             if isinstance(key, BaseDeferred):
                 key = key.get_current_best_estimate()
